@@ -85,7 +85,7 @@ func rulePsyncWire(w *core.World, r *core.Report) {
 				}
 				b, ok := ro.(*ssa.BinOp)
 				if !ok || b.Op != token.SUB || !isConstInt(1)(b.Y) || p.Resolve(b.X) != p.Resolve(sent) {
-					bad, badPos = "on CONTINUE the reported offset must be the offset sent minus 1", ret.Pos()
+					bad, badPos = "on CONTINUE the reported offset must be the offset sent minus 1 (found "+ro.String()+")", ret.Pos()
 				}
 			} else {
 				nFull++
